@@ -1161,7 +1161,8 @@ class LogixDriver(CIPDriver):
                 )
                 request.build_message()
 
-                req_size = len(request.message)
+                # the multi-service wrapper adds MULTISERVICE_READ_OVERHEAD bytes to a lone request
+                req_size = len(request.message) + MULTISERVICE_READ_OVERHEAD
                 if req_size > self.connection_size:
                     request = WriteTagFragmentedRequestPacket.from_request(self._sequence, request)
                     fragmented_requests.append(request)
